@@ -599,22 +599,32 @@ class MPSBackendImpl:
         return results
 
 
-def permute_bitstrings(results: Results, perm: torch.Tensor) -> None:
-    if "bitstrings" not in results.get_result_tags():
-        return
-    uuid_bs = results._find_uuid("bitstrings")
-
-    results._results[uuid_bs] = [
-        Counter({optimat.permute_string(bstr, perm): c for bstr, c in bs_counter.items()})
-        for bs_counter in results._results[uuid_bs]
+def _tags_with_base(results: Results, base_tag: str) -> list[str]:
+    """Result tags of an observable kind, with or without a `tag_suffix`."""
+    return [
+        tag
+        for tag in results.get_result_tags()
+        if tag == base_tag or tag.startswith(base_tag + "_")
     ]
 
 
-def permute_occupations_and_correlations(results: Results, perm: torch.Tensor) -> None:
-    for corr in ["occupation", "correlation_matrix"]:
-        if corr not in results.get_result_tags():
-            continue
+def permute_bitstrings(results: Results, perm: torch.Tensor) -> None:
+    for tag in _tags_with_base(results, "bitstrings"):
+        uuid_bs = results._find_uuid(tag)
 
+        results._results[uuid_bs] = [
+            Counter(
+                {optimat.permute_string(bstr, perm): c for bstr, c in bs_counter.items()}
+            )
+            for bs_counter in results._results[uuid_bs]
+        ]
+
+
+def permute_occupations_and_correlations(results: Results, perm: torch.Tensor) -> None:
+    tags = _tags_with_base(results, "occupation") + _tags_with_base(
+        results, "correlation_matrix"
+    )
+    for corr in tags:
         uuid_corr = results._find_uuid(corr)
         corrs = results._results[uuid_corr]
         results._results[uuid_corr] = (
